@@ -28,7 +28,7 @@ Sub(a, b) == BAdd(ValBits(a), BNeg(ValBits(b)))
 VBytes(x) == IF IsNull(x) THEN SVar(IntBits(-1)) ELSE SVar(NatBits(Len(x.blob))) \o x.blob
 
 EncRecord(r, baseTs, baseOff) ==
-  LET hdrs == FlattenSeq([i \in 1..Len(r.headers) |-> VBytes(r.headers[i][1]) \o VBytes(r.headers[i][2])])
+  LET hdrs == Flatten([i \in 1..Len(r.headers) |-> VBytes(r.headers[i][1]) \o VBytes(r.headers[i][2])])
       body == BE(ValBits(r.attrs), 1)
               \o SVarLong(Sub(r.ts, baseTs))
               \o SVar(Sub(r.offset, baseOff))
@@ -42,7 +42,7 @@ Body(b) ==
   \o BE(ValBits(b.base_ts), 8) \o BE(ValBits(b.max_ts), 8)
   \o BE(ValBits(b.producer_id), 8) \o BE(ValBits(b.producer_epoch), 2)
   \o BE(ValBits(b.base_seq), 4) \o BE(NatBits(Len(b.records)), 4)
-  \o FlattenSeq([i \in 1..Len(b.records) |-> EncRecord(b.records[i], b.base_ts, b.base_offset)])
+  \o Flatten([i \in 1..Len(b.records) |-> EncRecord(b.records[i], b.base_ts, b.base_offset)])
 
 \* a batch written as it stands (kio: write_prepared_batch)
 EncPrepared(b) ==
